@@ -1,157 +1,273 @@
 import Splipy.Lemmas.C03Contract
-import Splipy.Lemmas.EvalRow
+import Splipy.Lemmas.TensorEvalSnap
 
 /-!
 # C03 – non-rational objects: the model derivative is the mixed partial `Σ Π_k dB_k · P`
 
-`Obj.derivativeGeneric` on a non-rational object returns the contraction of the control net with the
-per-direction matrices `Basis.evaluate(t, d_k, side_k)` (by definition, `derivativeGeneric_nonrational`).
-With the C01 statement for the rows used (`RowsAre … β`: each row entry is the specification value
-`β k j`, for C01 `Basis.rowSpec`) the result is the tensor-product derivative sum `Σ Π_k β_k · P`.
+Same route as `TensorEvalObj*.lean` takes for `evaluate`:
+
+* `Basis.drowVal b tol u d a j` — the number the code uses for function `j`, derivative order `d`, side `a`
+  at the parameter `u` (`_validate_domain` snaps, then `b.evaluate(·, d, from_right)` is called);
+* `Obj.derivative{1,2,3}_nonrational` — with NO validity assumption, for any parameters that pass the
+  argument checks, grid (`tensor=True`) and pointwise (`tensor=False`) form: the result entries are
+  `Σ Π_k drowVal_k · P`;
+* `Basis.rowSpec` — what C01 demands of that number (`dB`, wrapped images for periodic bases, the zero row
+  at the start of a non-periodic domain approached from the left).
 -/
 
 namespace Splipy
 
-variable {K : Type} [Field K] [LinearOrder K] [FloorRing K]
+set_option linter.unusedSectionVars false
+open Tensor
 
-/-- The rows a call uses have the entries `β k j` (point `k`, function `j`).  `Properties/C03.lean`
-    discharges this from the C01 theorems with `β k j = b.rowSpec t_k a d j`. -/
-def RowsAre (b : Basis K) (tol : K) (ts : List K) (d : ℕ) (a : Bool) (β : ℕ → ℕ → K) : Prop :=
-  ∀ k, k < ts.length → ∀ j, j < b.numFunctions →
-    (b.evaluate tol (ts.getD k 0) d a).getD j 0 = β k j
+variable {K : Type} [Field K] [LinearOrder K] [IsStrictOrderedRing K] [FloorRing K]
 
-/-- What property C01 demands of entry `j` of `basis.evaluate(t, d, from_right)` for `t` in the domain:
-    non-periodic: the one-sided derivative `dB` (side forced to `left` at the domain end);
-    periodic: the sum of the wrapped images `i ≡ j (mod n)` at the effective point/side. -/
+/-- The number the code uses for basis function `j`, derivative order `d`, side `a` at the parameter `u`
+of a `derivative` call: `_validate_domain` snaps `u`, then `b.evaluate(u, d, from_right)` (which snaps
+again) is called. -/
+def Basis.drowVal (b : Basis K) (tol u : K) (d : ℕ) (a : Bool) (j : ℕ) : K :=
+  (b.evaluate tol (snap b tol u) d a).getD j 0
+
+/-- What property C01 demands of entry `j` of `basis.evaluate(t, d, from_right)`:
+* non-periodic basis: the one-sided derivative `dB` (side forced to `left` at the domain end), and the
+  zero row at the domain START approached from the left (nothing of the spline lies to the left of it);
+* periodic basis: the sum of the wrapped images `i ≡ j (mod n)` at the wrapped point, with the effective
+  point/side of the seam (left limit at `start` = left limit at `stop`). -/
 def Basis.rowSpec (b : Basis K) (t : K) (a : Bool) (d j : ℕ) : K :=
-  if b.periodic < 0 then dB (effSide b t a) b.kn (b.order - 1) j d t
+  if b.periodic < 0 then
+    (if t = b.start ∧ a = false then 0 else dB (effSide b t a) b.kn (b.order - 1) j d t)
   else ((Finset.range b.nAll).filter (fun i => i % b.numFunctions = j)).sum
-          (fun i => dB (periodicEff b t a).2 b.kn (b.order - 1) i d (periodicEff b t a).1)
+          (fun i => dB (periodicEff b (b.wrap t) a).2 b.kn (b.order - 1) i d (periodicEff b (b.wrap t) a).1)
+
+theorem basisMat_snap_entry_d (b : Basis K) (tol : K) (us : List K) (d : ℕ) (a : Bool) {i : ℕ}
+    (hi : i < us.length) (j : ℕ) :
+    ((Obj.basisMat b tol (us.map (snap b tol)) d a).getD i #[]).getD j 0
+      = b.drowVal tol (us.getD i 0) d a j := by
+  unfold Obj.basisMat Basis.drowVal
+  rw [Array.getD_eq_getD_getElem?]
+  simp [hi, List.getD_eq_getElem?_getD]
+
+/-- C01 for derivative rows: for a valid basis and an admissible parameter the code's number is the
+specification value, for every derivative order and both sides. -/
+theorem Basis.drowVal_eq_rowSpec {b : Basis K} (hv : b.Valid) {tol u : K} (htol : 0 < tol)
+    (h : b.Admissible tol u) (d : ℕ) (a : Bool) {j : ℕ} (hj : j < b.numFunctions) :
+    b.drowVal tol u d a j = b.rowSpec u a d j := by
+  unfold Basis.drowVal Basis.rowSpec
+  rw [h.snap_eq htol]
+  by_cases hd : d < b.order
+  · by_cases hper : b.periodic < 0
+    · have hper' : b.periodic = -1 := by have := hv.periodic_ge; omega
+      rw [if_pos hper]
+      by_cases hsl : u = b.start ∧ a = false
+      · rw [if_pos hsl]
+        obtain ⟨rfl, rfl⟩ := hsl
+        rw [C01_start_from_left hv hper' htol d]
+        unfold Array.getD; split <;> simp
+      · rw [if_neg hsl]
+        exact C01_value_deriv_open hv hper' htol h.1 (h.2.1 hper').1 (h.2.1 hper').2 hsl hd hj
+    · rw [if_neg hper]
+      exact C01_value_deriv_periodic_any_real hv (by omega) htol h.1 (h.2.2 (by omega)) a hd hj
+  · have hd' : b.order ≤ d := by omega
+    rw [C01_high_derivative_zero b tol _ hd' a]
+    have hz : (Array.replicate b.numFunctions (0 : K)).getD j 0 = 0 := by
+      unfold Array.getD; split <;> simp
+    rw [hz]
+    by_cases hper : b.periodic < 0
+    · rw [if_pos hper]
+      by_cases hsl : u = b.start ∧ a = false
+      · rw [if_pos hsl]
+      · rw [if_neg hsl, C01_high_derivative_zero_spec b hv.order_pos _ _ hd']
+    · rw [if_neg hper]
+      symm
+      apply Finset.sum_eq_zero
+      intro i _
+      exact C01_high_derivative_zero_spec b hv.order_pos _ _ hd' i
 
 namespace Obj
 
-theorem basisMat_size (b : Basis K) (tol : K) (ps : List K) (d : ℕ) (a : Bool) :
-    (basisMat b tol ps d a).size = ps.length := by
-  unfold basisMat
-  simp
-
-theorem basisMat_getD (b : Basis K) (tol : K) (ps : List K) (d : ℕ) (a : Bool) (r : ℕ) (hr : r < ps.length) :
-    (basisMat b tol ps d a).getD r #[] = b.evaluate tol (ps.getD r 0) d a := by
-  unfold basisMat Array.getD
-  simp [hr]
-
-theorem homJet_curve (o : Obj K) (b : Basis K) (hb : o.bases.toList = [b]) (tol : K) (ts : List K)
-    (d : ℕ) (a : Bool) :
-    o.homJet tol [ts] [d] [a] true = contractGrid [basisMat b tol ts d a] o.cps := by
-  unfold homJet
-  rw [hb]
+/-- A non-rational derivative call that passes the argument checks returns the homogeneous jet of the
+snapped parameters. -/
+theorem derivativeGeneric_nonrational_ok (o : Obj K) (tol : K) (params : List (List K)) (derivs : List ℕ)
+    (above : List Bool) (tensor : Bool) (hr : o.rational = false)
+    (h1 : ¬ (tensor = false ∧ (params.map List.length).eraseDups.length ≠ 1))
+    (h2 : ¬ o.OutOfDomain tol params) :
+    o.derivativeGeneric tol params derivs above tensor =
+      .ok (o.homJet tol (o.snapParams tol params) derivs above tensor) := by
+  unfold derivativeGeneric
+  rw [if_neg (by simpa using h1), o.validateDomain_ok tol params h2]
+  simp only [hr]
   rfl
 
-theorem homJet_surface (o : Obj K) (b1 b2 : Basis K) (hb : o.bases.toList = [b1, b2]) (tol : K)
-    (us vs : List K) (d1 d2 : ℕ) (a1 a2 : Bool) :
-    o.homJet tol [us, vs] [d1, d2] [a1, a2] true =
-      contractGrid [basisMat b1 tol us d1 a1, basisMat b2 tol vs d2 a2] o.cps := by
-  unfold homJet
-  rw [hb]
-  rfl
+/-- … and it raises `ValueError` exactly as `evaluate` does. -/
+theorem derivativeGeneric_error_len (o : Obj K) (tol : K) (params : List (List K)) (derivs : List ℕ)
+    (above : List Bool) (tensor : Bool)
+    (h : tensor = false ∧ (params.map List.length).eraseDups.length ≠ 1) :
+    o.derivativeGeneric tol params derivs above tensor = .error .value := by
+  unfold derivativeGeneric
+  rw [if_pos (by simpa using h)]
 
-theorem homJet_volume (o : Obj K) (b1 b2 b3 : Basis K) (hb : o.bases.toList = [b1, b2, b3]) (tol : K)
-    (us vs ws : List K) (d1 d2 d3 : ℕ) (a1 a2 a3 : Bool) :
-    o.homJet tol [us, vs, ws] [d1, d2, d3] [a1, a2, a3] true =
-      contractGrid [basisMat b1 tol us d1 a1, basisMat b2 tol vs d2 a2, basisMat b3 tol ws d3 a3] o.cps := by
-  unfold homJet
-  rw [hb]
-  rfl
+theorem derivativeGeneric_error_dom (o : Obj K) (tol : K) (params : List (List K)) (derivs : List ℕ)
+    (above : List Bool) (tensor : Bool) (h : o.OutOfDomain tol params) :
+    o.derivativeGeneric tol params derivs above tensor = .error .value := by
+  unfold derivativeGeneric
+  rw [o.validateDomain_error tol params h]
+  by_cases h1 : (!tensor) = true ∧ (params.map List.length).eraseDups.length ≠ 1
+  · rw [if_pos h1]
+  · rw [if_neg h1]
 
-/-- Curves. -/
-theorem derivative_nonrational_curve (o : Obj K) (b : Basis K) (hb : o.bases.toList = [b]) (n nc : ℕ)
-    (hs : o.cps.shape = [n, nc]) (hn : n = b.numFunctions) (tol : K) (ts ts' : List K) (d : ℕ) (a : Bool)
-    (r : Tensor K) (hr : o.rational = false)
-    (hv : o.validateDomain tol [ts] = .ok [ts'])
-    (h : o.derivativeGeneric tol [ts] [d] [a] true = .ok r)
-    (β : ℕ → ℕ → K) (hC01 : RowsAre b tol ts' d a β) :
-    ∀ k, k < ts'.length → ∀ c, c < nc →
-      r.get (k * nc + c) = (Finset.range n).sum (fun j => β k j * o.cps.get (j * nc + c)) := by
-  obtain ⟨ps, hps, hrr⟩ := derivativeGeneric_nonrational o tol [ts] [d] [a] true r hr h
-  rw [hv] at hps
-  injection hps with hps
-  subst hps
-  intro k hk c hc
-  rw [hrr, homJet_curve o b hb, contractGrid_curve_get _ _ n nc hs k c (by rw [basisMat_size]; exact hk) hc]
-  apply Finset.sum_congr rfl
-  intro j hj
-  rw [Finset.mem_range] at hj
-  rw [basisMat_getD _ _ _ _ _ _ hk, hC01 k hk j (by omega)]
+/-! ### curves -/
 
-/-- Surfaces (tensor grid). -/
-theorem derivative_nonrational_surface (o : Obj K) (b1 b2 : Basis K) (hb : o.bases.toList = [b1, b2])
-    (n1 n2 nc : ℕ) (hs : o.cps.shape = [n1, n2, nc]) (hn1 : n1 = b1.numFunctions) (hn2 : n2 = b2.numFunctions)
-    (tol : K) (us vs us' vs' : List K) (d1 d2 : ℕ) (a1 a2 : Bool) (r : Tensor K) (hr : o.rational = false)
-    (hv : o.validateDomain tol [us, vs] = .ok [us', vs'])
-    (h : o.derivativeGeneric tol [us, vs] [d1, d2] [a1, a2] true = .ok r)
-    (β1 β2 : ℕ → ℕ → K) (hC01u : RowsAre b1 tol us' d1 a1 β1) (hC01v : RowsAre b2 tol vs' d2 a2 β2) :
-    ∀ k1, k1 < us'.length → ∀ k2, k2 < vs'.length → ∀ c, c < nc →
-      r.get ((k1 * vs'.length + k2) * nc + c) =
-        (Finset.range n1).sum (fun i => β1 k1 i *
-          (Finset.range n2).sum (fun j => β2 k2 j * o.cps.get ((i * n2 + j) * nc + c))) := by
-  obtain ⟨ps, hps, hrr⟩ := derivativeGeneric_nonrational o tol [us, vs] [d1, d2] [a1, a2] true r hr h
-  rw [hv] at hps
-  injection hps with hps
-  subst hps
-  intro k1 hk1 k2 hk2 c hc
-  have hsz2 : (basisMat b2 tol vs' d2 a2).size = vs'.length := basisMat_size _ _ _ _ _
-  rw [hrr, homJet_surface o b1 b2 hb, ← hsz2,
-    contractGrid_surface_get _ _ _ n1 n2 nc hs k1 k2 c (by rw [basisMat_size]; exact hk1)
-      (by rw [basisMat_size]; exact hk2) hc]
-  apply Finset.sum_congr rfl
-  intro i hi
-  rw [Finset.mem_range] at hi
-  rw [basisMat_getD _ _ _ _ _ _ hk1, hC01u k1 hk1 i (by omega)]
-  congr 1
-  apply Finset.sum_congr rfl
-  intro j hj
-  rw [Finset.mem_range] at hj
-  rw [basisMat_getD _ _ _ _ _ _ hk2, hC01v k2 hk2 j (by omega)]
+theorem homJet1 {o : Obj K} {b1 : Basis K} (hb : o.bases = #[b1]) (tol : K) (us : List K) (d : ℕ)
+    (a : Bool) (tensor : Bool) :
+    o.homJet tol (o.snapParams tol [us]) [d] [a] tensor =
+      (if tensor then contractGrid [basisMat b1 tol (us.map (snap b1 tol)) d a] o.cps
+       else contractPointwise [basisMat b1 tol (us.map (snap b1 tol)) d a] o.cps us.length) := by
+  simp [homJet, snapParams, hb]
 
-/-- Volumes (tensor grid). -/
-theorem derivative_nonrational_volume (o : Obj K) (b1 b2 b3 : Basis K) (hb : o.bases.toList = [b1, b2, b3])
-    (n1 n2 n3 nc : ℕ) (hs : o.cps.shape = [n1, n2, n3, nc]) (hn1 : n1 = b1.numFunctions)
-    (hn2 : n2 = b2.numFunctions) (hn3 : n3 = b3.numFunctions)
-    (tol : K) (us vs ws us' vs' ws' : List K) (d1 d2 d3 : ℕ) (a1 a2 a3 : Bool) (r : Tensor K)
-    (hr : o.rational = false)
-    (hv : o.validateDomain tol [us, vs, ws] = .ok [us', vs', ws'])
-    (h : o.derivativeGeneric tol [us, vs, ws] [d1, d2, d3] [a1, a2, a3] true = .ok r)
-    (β1 β2 β3 : ℕ → ℕ → K) (hC01u : RowsAre b1 tol us' d1 a1 β1) (hC01v : RowsAre b2 tol vs' d2 a2 β2)
-    (hC01w : RowsAre b3 tol ws' d3 a3 β3) :
-    ∀ k1, k1 < us'.length → ∀ k2, k2 < vs'.length → ∀ k3, k3 < ws'.length → ∀ c, c < nc →
-      r.get (((k1 * vs'.length + k2) * ws'.length + k3) * nc + c) =
-        (Finset.range n1).sum (fun i => β1 k1 i *
-          (Finset.range n2).sum (fun j => β2 k2 j *
-            (Finset.range n3).sum (fun k => β3 k3 k * o.cps.get (((i * n2 + j) * n3 + k) * nc + c)))) := by
-  obtain ⟨ps, hps, hrr⟩ := derivativeGeneric_nonrational o tol [us, vs, ws] [d1, d2, d3] [a1, a2, a3] true r hr h
-  rw [hv] at hps
-  injection hps with hps
-  subst hps
-  intro k1 hk1 k2 hk2 k3 hk3 c hc
-  have hsz2 : (basisMat b2 tol vs' d2 a2).size = vs'.length := basisMat_size _ _ _ _ _
-  have hsz3 : (basisMat b3 tol ws' d3 a3).size = ws'.length := basisMat_size _ _ _ _ _
-  rw [hrr, homJet_volume o b1 b2 b3 hb, ← hsz2, ← hsz3,
-    contractGrid_volume_get _ _ _ _ n1 n2 n3 nc hs k1 k2 k3 c (by rw [basisMat_size]; exact hk1)
-      (by rw [basisMat_size]; exact hk2) (by rw [basisMat_size]; exact hk3) hc]
-  apply Finset.sum_congr rfl
-  intro i hi
-  rw [Finset.mem_range] at hi
-  rw [basisMat_getD _ _ _ _ _ _ hk1, hC01u k1 hk1 i (by omega)]
-  congr 1
-  apply Finset.sum_congr rfl
-  intro j hj
-  rw [Finset.mem_range] at hj
-  rw [basisMat_getD _ _ _ _ _ _ hk2, hC01v k2 hk2 j (by omega)]
-  congr 1
-  apply Finset.sum_congr rfl
-  intro k hk
-  rw [Finset.mem_range] at hk
-  rw [basisMat_getD _ _ _ _ _ _ hk3, hC01w k3 hk3 k (by omega)]
+/-- Non-rational curve, `tensor` either way: entries in terms of the code's rows. -/
+theorem derivative1_nonrational {o : Obj K} {b1 : Basis K} (hb : o.bases = #[b1]) {n1 nc : ℕ}
+    (hs : o.cps.shape = [n1, nc]) (hr : o.rational = false) (tol : K) (us : List K) (d : ℕ) (a : Bool)
+    (tensor : Bool) (hdom : ¬ o.OutOfDomain tol [us]) :
+    ∃ res, o.derivativeGeneric tol [us] [d] [a] tensor = .ok res ∧
+      ∀ i c, i < us.length → c < nc →
+        res.get (i * nc + c) =
+          ∑ j ∈ Finset.range n1, b1.drowVal tol (us.getD i 0) d a j * o.cps.get (j * nc + c) := by
+  have hl : ¬ (tensor = false ∧ ([us].map List.length).eraseDups.length ≠ 1) := by
+    rw [not_and_not_right]; intro _
+    rw [eraseDups_length_eq_one_iff]
+    exact ⟨by simp, by intro x hx y hy; simp at hx hy; omega⟩
+  refine ⟨_, derivativeGeneric_nonrational_ok o tol [us] [d] [a] tensor hr hl hdom, ?_⟩
+  intro i c hi hc
+  rw [homJet1 hb]
+  cases tensor
+  · simp only [Bool.false_eq_true, if_false]
+    rw [contractPointwise1_get _ _ _ hs hi hc]
+    exact Finset.sum_congr rfl (fun j _ => by rw [basisMat_snap_entry_d b1 tol us d a hi])
+  · simp only [if_true]
+    rw [contractGrid1_get _ _ hs (by rw [basisMat_rows, List.length_map]; exact hi) hc]
+    exact Finset.sum_congr rfl (fun j _ => by rw [basisMat_snap_entry_d b1 tol us d a hi])
+
+/-! ### surfaces -/
+
+theorem homJet2 {o : Obj K} {b1 b2 : Basis K} (hb : o.bases = #[b1, b2]) (tol : K) (us vs : List K)
+    (d1 d2 : ℕ) (a1 a2 : Bool) (tensor : Bool) :
+    o.homJet tol (o.snapParams tol [us, vs]) [d1, d2] [a1, a2] tensor =
+      (if tensor then contractGrid [basisMat b1 tol (us.map (snap b1 tol)) d1 a1,
+                                    basisMat b2 tol (vs.map (snap b2 tol)) d2 a2] o.cps
+       else contractPointwise [basisMat b1 tol (us.map (snap b1 tol)) d1 a1,
+                               basisMat b2 tol (vs.map (snap b2 tol)) d2 a2] o.cps us.length) := by
+  simp [homJet, snapParams, hb]
+
+/-- Non-rational surface, tensor grid. -/
+theorem derivative2_nonrational_grid {o : Obj K} {b1 b2 : Basis K} (hb : o.bases = #[b1, b2])
+    {n1 n2 nc : ℕ} (hs : o.cps.shape = [n1, n2, nc]) (hr : o.rational = false) (tol : K)
+    (us vs : List K) (d1 d2 : ℕ) (a1 a2 : Bool) (hdom : ¬ o.OutOfDomain tol [us, vs]) :
+    ∃ res, o.derivativeGeneric tol [us, vs] [d1, d2] [a1, a2] true = .ok res ∧
+      ∀ i1 i2 c, i1 < us.length → i2 < vs.length → c < nc →
+        res.get ((i1 * vs.length + i2) * nc + c) =
+          ∑ j1 ∈ Finset.range n1, ∑ j2 ∈ Finset.range n2,
+            b1.drowVal tol (us.getD i1 0) d1 a1 j1 * b2.drowVal tol (vs.getD i2 0) d2 a2 j2
+              * o.cps.get ((j1 * n2 + j2) * nc + c) := by
+  refine ⟨_, derivativeGeneric_nonrational_ok o tol [us, vs] [d1, d2] [a1, a2] true hr (by simp) hdom, ?_⟩
+  intro i1 i2 c h1 h2 hc
+  rw [homJet2 hb]
+  simp only [if_true]
+  have hsz : (basisMat b2 tol (vs.map (snap b2 tol)) d2 a2).size = vs.length := by
+    rw [basisMat_rows, List.length_map]
+  rw [← hsz, contractGrid2_get _ _ _ hs (by rw [basisMat_rows, List.length_map]; exact h1)
+    (by rw [hsz]; exact h2) hc]
+  exact Finset.sum_congr rfl (fun j1 _ => Finset.sum_congr rfl (fun j2 _ => by
+    rw [basisMat_snap_entry_d b1 tol us d1 a1 h1, basisMat_snap_entry_d b2 tol vs d2 a2 h2]))
+
+/-- Non-rational surface, `tensor=False` (equal numbers of `u` and `v`): point `i` is the pair `(uᵢ, vᵢ)`. -/
+theorem derivative2_nonrational_pointwise {o : Obj K} {b1 b2 : Basis K} (hb : o.bases = #[b1, b2])
+    {n1 n2 nc : ℕ} (hs : o.cps.shape = [n1, n2, nc]) (hr : o.rational = false) (tol : K)
+    (us vs : List K) (d1 d2 : ℕ) (a1 a2 : Bool) (hlen : vs.length = us.length)
+    (hdom : ¬ o.OutOfDomain tol [us, vs]) :
+    ∃ res, o.derivativeGeneric tol [us, vs] [d1, d2] [a1, a2] false = .ok res ∧
+      ∀ i c, i < us.length → c < nc →
+        res.get (i * nc + c) =
+          ∑ j1 ∈ Finset.range n1, ∑ j2 ∈ Finset.range n2,
+            b1.drowVal tol (us.getD i 0) d1 a1 j1 * b2.drowVal tol (vs.getD i 0) d2 a2 j2
+              * o.cps.get ((j1 * n2 + j2) * nc + c) := by
+  have hl : ¬ (false = false ∧ ([us, vs].map List.length).eraseDups.length ≠ 1) := by
+    rw [not_and_not_right]; intro _
+    rw [eraseDups_length_eq_one_iff]
+    exact ⟨by simp, by intro x hx y hy; simp at hx hy; omega⟩
+  refine ⟨_, derivativeGeneric_nonrational_ok o tol [us, vs] [d1, d2] [a1, a2] false hr hl hdom, ?_⟩
+  intro i c hi hc
+  rw [homJet2 hb]
+  simp only [Bool.false_eq_true, if_false]
+  rw [contractPointwise2_get _ _ _ _ hs hi hc]
+  exact Finset.sum_congr rfl (fun j1 _ => Finset.sum_congr rfl (fun j2 _ => by
+    rw [basisMat_snap_entry_d b1 tol us d1 a1 hi, basisMat_snap_entry_d b2 tol vs d2 a2 (by omega)]))
+
+/-! ### volumes -/
+
+theorem homJet3 {o : Obj K} {b1 b2 b3 : Basis K} (hb : o.bases = #[b1, b2, b3]) (tol : K)
+    (us vs ws : List K) (d1 d2 d3 : ℕ) (a1 a2 a3 : Bool) (tensor : Bool) :
+    o.homJet tol (o.snapParams tol [us, vs, ws]) [d1, d2, d3] [a1, a2, a3] tensor =
+      (if tensor then contractGrid [basisMat b1 tol (us.map (snap b1 tol)) d1 a1,
+                                    basisMat b2 tol (vs.map (snap b2 tol)) d2 a2,
+                                    basisMat b3 tol (ws.map (snap b3 tol)) d3 a3] o.cps
+       else contractPointwise [basisMat b1 tol (us.map (snap b1 tol)) d1 a1,
+                               basisMat b2 tol (vs.map (snap b2 tol)) d2 a2,
+                               basisMat b3 tol (ws.map (snap b3 tol)) d3 a3] o.cps us.length) := by
+  simp [homJet, snapParams, hb]
+
+/-- Non-rational volume, tensor grid. -/
+theorem derivative3_nonrational_grid {o : Obj K} {b1 b2 b3 : Basis K} (hb : o.bases = #[b1, b2, b3])
+    {n1 n2 n3 nc : ℕ} (hs : o.cps.shape = [n1, n2, n3, nc]) (hr : o.rational = false) (tol : K)
+    (us vs ws : List K) (d1 d2 d3 : ℕ) (a1 a2 a3 : Bool) (hdom : ¬ o.OutOfDomain tol [us, vs, ws]) :
+    ∃ res, o.derivativeGeneric tol [us, vs, ws] [d1, d2, d3] [a1, a2, a3] true = .ok res ∧
+      ∀ i1 i2 i3 c, i1 < us.length → i2 < vs.length → i3 < ws.length → c < nc →
+        res.get (((i1 * vs.length + i2) * ws.length + i3) * nc + c) =
+          ∑ j1 ∈ Finset.range n1, ∑ j2 ∈ Finset.range n2, ∑ j3 ∈ Finset.range n3,
+            b1.drowVal tol (us.getD i1 0) d1 a1 j1 * b2.drowVal tol (vs.getD i2 0) d2 a2 j2
+              * b3.drowVal tol (ws.getD i3 0) d3 a3 j3
+              * o.cps.get (((j1 * n2 + j2) * n3 + j3) * nc + c) := by
+  refine ⟨_, derivativeGeneric_nonrational_ok o tol [us, vs, ws] [d1, d2, d3] [a1, a2, a3] true hr
+    (by simp) hdom, ?_⟩
+  intro i1 i2 i3 c h1 h2 h3 hc
+  rw [homJet3 hb]
+  simp only [if_true]
+  have hsz2 : (basisMat b2 tol (vs.map (snap b2 tol)) d2 a2).size = vs.length := by
+    rw [basisMat_rows, List.length_map]
+  have hsz3 : (basisMat b3 tol (ws.map (snap b3 tol)) d3 a3).size = ws.length := by
+    rw [basisMat_rows, List.length_map]
+  rw [← hsz2, ← hsz3, contractGrid3_get _ _ _ _ hs (by rw [basisMat_rows, List.length_map]; exact h1)
+    (by rw [hsz2]; exact h2) (by rw [hsz3]; exact h3) hc]
+  exact Finset.sum_congr rfl (fun j1 _ => Finset.sum_congr rfl (fun j2 _ =>
+    Finset.sum_congr rfl (fun j3 _ => by
+      rw [basisMat_snap_entry_d b1 tol us d1 a1 h1, basisMat_snap_entry_d b2 tol vs d2 a2 h2,
+        basisMat_snap_entry_d b3 tol ws d3 a3 h3])))
+
+/-- Non-rational volume, `tensor=False`. -/
+theorem derivative3_nonrational_pointwise {o : Obj K} {b1 b2 b3 : Basis K} (hb : o.bases = #[b1, b2, b3])
+    {n1 n2 n3 nc : ℕ} (hs : o.cps.shape = [n1, n2, n3, nc]) (hr : o.rational = false) (tol : K)
+    (us vs ws : List K) (d1 d2 d3 : ℕ) (a1 a2 a3 : Bool) (hlen2 : vs.length = us.length)
+    (hlen3 : ws.length = us.length) (hdom : ¬ o.OutOfDomain tol [us, vs, ws]) :
+    ∃ res, o.derivativeGeneric tol [us, vs, ws] [d1, d2, d3] [a1, a2, a3] false = .ok res ∧
+      ∀ i c, i < us.length → c < nc →
+        res.get (i * nc + c) =
+          ∑ j1 ∈ Finset.range n1, ∑ j2 ∈ Finset.range n2, ∑ j3 ∈ Finset.range n3,
+            b1.drowVal tol (us.getD i 0) d1 a1 j1 * b2.drowVal tol (vs.getD i 0) d2 a2 j2
+              * b3.drowVal tol (ws.getD i 0) d3 a3 j3
+              * o.cps.get (((j1 * n2 + j2) * n3 + j3) * nc + c) := by
+  have hl : ¬ (false = false ∧ ([us, vs, ws].map List.length).eraseDups.length ≠ 1) := by
+    rw [not_and_not_right]; intro _
+    rw [eraseDups_length_eq_one_iff]
+    exact ⟨by simp, by intro x hx y hy; simp at hx hy; omega⟩
+  refine ⟨_, derivativeGeneric_nonrational_ok o tol [us, vs, ws] [d1, d2, d3] [a1, a2, a3] false hr hl
+    hdom, ?_⟩
+  intro i c hi hc
+  rw [homJet3 hb]
+  simp only [Bool.false_eq_true, if_false]
+  rw [contractPointwise3_get _ _ _ _ _ hs hi hc]
+  exact Finset.sum_congr rfl (fun j1 _ => Finset.sum_congr rfl (fun j2 _ =>
+    Finset.sum_congr rfl (fun j3 _ => by
+      rw [basisMat_snap_entry_d b1 tol us d1 a1 hi, basisMat_snap_entry_d b2 tol vs d2 a2 (by omega),
+        basisMat_snap_entry_d b3 tol ws d3 a3 (by omega)])))
 
 end Obj
 
